@@ -15,6 +15,10 @@ document level (extra_checks, oracle doc12): generated documents with adversaria
   HTML5/Config.py that templates consult (breadcrumbs-level, localtoc-level, display-toc, toc-depth, toc-non-files,
   sec-num-depth, mathjax, theme css/js), parsed with html.parser and compared with the same document carrying inert
   letters.  Documents may contain declared raw HTML (package html) and text leaves that are exactly the same string.
+  The grammar also covers text positions that packages and less common macros bring with templates of their own
+  (listings: lstlisting / lstinline in languages the highlighter knows, does not know, or none, captions; alltt; color;
+  boxes; theorem titles; bibliography items; font switches), and an environment dimension: the optional Pygments
+  dependency present or absent (`env: no-pygments`).  Highlighter token spans are transparent for the comparison.
 """
 import os, re, sys, json, html, logging, random, tempfile, shutil, types
 from html.parser import HTMLParser
@@ -32,7 +36,8 @@ LEVEL_TEXT = ('Lean 4 theorems over a line-by-line model of PageTemplate.textDef
               'the clean-up regexes lose, change or reorder no non-blank character of the character data (only &nbsp; is added in empty cells) and never '
               'touch escaped text; the hook is memoryless (hook_history_independent) and the child loop carries nothing from one child to the next; '
               'every node tree rendered through tag-only templates displays exactly its text leaves, also next to complete declared markup '
-              '(render_with_markup_leaves). '
+              '(render_with_markup_leaves), and the same for templates that are arbitrary sequences of complete literal output and content '
+              'interpolations, repeated or dropped (render_piece_templates). '
               'PARTIAL: Jinja2/simpleTAL expansion of the ~110 template files is not modelled; that each template emits node text only through '
               'the escaping hook (and escapes text it copies into attributes) is carried by the document-level oracle doc12 (sampled), not by a theorem.')
 LEVEL_NOTE = ('Trusted: Lean kernel (axioms propext, Classical.choice, Quot.sound only), the translator (AST of textDefault + probes of textDefault, '
@@ -41,7 +46,9 @@ LEVEL_NOTE = ('Trusted: Lean kernel (axioms propext, Classical.choice, Quot.soun
 TECHNIQUE = 'Lean 4 proof (induction on strings/trees, finite table checks by kernel decide) + regenerated escape tables + differential correspondence + document-level html.parser oracle'
 TRUSTED = ['Jinja2 / simpleTAL template expansion (carried by doc12 only)', 'html.parser as the reader of rendered output',
            'Python re semantics of the four regexes (re-implemented as scanners, tied by streams pfc/h5/xh)']
-ASSUMPTIONS = ['no generated images are registered with the imagers (no LaTeX in the sandbox): the image-placeholder pass is the identity',
+ASSUMPTIONS = ['an installation without Pygments is simulated by setting plasTeX.Packages.listings.pygments = None (what its failed import leaves)',
+               'utf-16 output is not combined with package listings (its UTF-8 pygments.css is re-read in the output encoding)',
+               'no generated images are registered with the imagers (no LaTeX in the sandbox): the image-placeholder pass is the identity',
                'html5 filters / processFileContents callbacks are not configured',
                'the output encoding can represent the document text (utf-8, or latin-1 with Latin-1 payloads)',
                'nodes flagged isMarkup (packages html, embed) are markup by declaration and outside the property']
@@ -325,7 +332,7 @@ def gen_tree(rng, depth, top=False, pool=None):
             m = 1 if rng.random() < 0.04 else 0
         return ['T' if rng.random() < 0.7 else 'U', str(m), str(len(s))] + [str(ord(c)) for c in s]
     k = rng.randint(0, 4)
-    out = ['E', str(rng.randrange(5)), str(k)]
+    out = ['E', str(rng.randrange(7)), str(k)]
     for _ in range(k):
         out += gen_tree(rng, depth - 1, pool=pool)
     return out
@@ -438,7 +445,14 @@ def canon_exc(e):
     return 'err:' + type(e).__name__
 
 
-TPL = {0: ('<span>', '</span>'), 1: ('<div class="c">', '</div>'), 2: ('', ''), 3: ('<p>', '</p><hr/>'), 4: ('<li><b>', '</b></li>')}
+# templates of the `tree` stream as piece sequences: literal output and None = the rendered content of the node
+# (5 and 6 have words of their own and show the content twice / never, as real templates do with titles)
+TPL = {0: ['<span>', None, '</span>'], 1: ['<div class="c">', None, '</div>'], 2: [None], 3: ['<p>', None, '</p><hr/>'],
+       4: ['<li><b>', None, '</b></li>'], 5: ['<b>T</b>: ', None, '<i>', None, '</i>'], 6: ['<u>no content</u>']}
+
+
+def _tpl_apply(pieces, content):
+    return ''.join(content() if p is None else p for p in pieces)
 
 
 def _tree_env():
@@ -452,8 +466,8 @@ def _tree_env():
     from plasTeX.Renderers.PageTemplate import Renderer
     r = Renderer()              # a new renderer per tree (see _renderer)
     r.level = -10
-    for k, (pre, post) in TPL.items():
-        r['tpl%d' % k] = (lambda pre, post: (lambda node: pre + str(node) + post))(pre, post)
+    for k, pieces in TPL.items():
+        r['tpl%d' % k] = (lambda pieces: (lambda node: _tpl_apply(pieces, lambda: str(node))))(pieces)
     return doc, r, classes, uni
 
 
@@ -519,8 +533,7 @@ def tree_reference(tree):
         inner = ''.join(go(c, False) for c in t[2])
         if top:
             return inner
-        pre, post = TPL[t[1] if t[1] in TPL else 4]
-        return pre + inner + post
+        return _tpl_apply(TPL[t[1] if t[1] in TPL else 4], lambda: inner)
     return go(tree, True), texts
 
 
@@ -655,9 +668,9 @@ def judge(o):
         o.prop_ok = ('<' not in out and '>' not in out and all(e[0] == 'text' for e in ev)
                      and ''.join(e[1] for e in ev) == s and o.spec == rest.strip())
         return
-    if st == 'tree' and o.spec == '-':
-        # the tree contains declared markup: compare the parse of the output with the parse of the prescribed
-        # rendering (markup as it is, every text leaf as a text node holding exactly its characters)
+    if st == 'tree':
+        # compare the parse of the output with the parse of the prescribed rendering (template output and declared
+        # markup as they are, every text leaf - wherever the templates show it - as text holding exactly its characters)
         tree, _ = parse_tree(o.case.line.split())
         flagged = []
 
@@ -686,11 +699,6 @@ def judge(o):
             elif e != ('text', ''):
                 merged.append(e)
         o.prop_ok = (merged == [e for e in html_events(out) if e != ('text', '')])
-        return
-    if st == 'tree':
-        ev = html_events(out)
-        want = from_cps(o.spec)
-        o.prop_ok = (''.join(e[1] for e in ev if e[0] == 'text') == want and not any(e[0] in ('comment', 'decl', 'pi', 'unknown-decl') for e in ev))
         return
     flag, _, rest = o.case.line.partition(' ')
     s = from_cps(rest)
@@ -803,7 +811,7 @@ def _spell(text, verbatim):
     return ''.join(out)
 
 
-def gen_payload(rng, verbatim, latin1, optarg=False):
+def gen_payload(rng, verbatim, latin1, optarg=False, no_tilde=False):
     """(tex, displayed text); with a Latin-1 output encoding only text that encoding can represent; no square
     brackets inside optional arguments (plasTeX ends `[...]` at the first `]` whatever the braces: C05's business)"""
     while True:
@@ -811,6 +819,8 @@ def gen_payload(rng, verbatim, latin1, optarg=False):
         if latin1 and not all(ord(c) < 256 for c in t):
             continue
         if optarg and ('[' in t or ']' in t):
+            continue
+        if no_tilde and '\xa0' in t:
             continue
         if not verbatim and ("'" in t or '\u2019' in t or '`' in t):
             continue      # TeX quote ligatures ('' "' ?` ...) rewrite these in normal mode: C01/C07's business
@@ -855,6 +865,12 @@ BARE_POSITIONS = ('emph', 'textbf', 'title', 'caption', 'footnote', 'quote', 'do
 BARE_WHOLE = [w for w in WHOLE if "'" not in w and '--' not in w and w == w.strip()] + ['<', '>', '&', '"', '&amp;', '&lt;']
 
 
+# languages of the LaTeX listings package; Pygments has a lexer for some of them only
+LST_LANGS = [None, None, None, 'Python', 'C', 'TeX', 'HTML', 'XML', 'bash', 'Algol', 'Oz', 'Simula', 'Mercury', 'Assembler', 'Caml', 'Lingo']
+OPTARG_POSITIONS = ('term', 'toctitle', 'thmtitle', 'biblabel')
+DICTARG_POSITIONS = ('lstcaption',)      # inside a key=value list: no comma, equals sign or brackets
+
+
 def marker(k):
     return 'Q' + 'abcdefghijklmnopqrstuvwxyz'[k // 26] + 'abcdefghijklmnopqrstuvwxyz'[k % 26] + 'Q'
 
@@ -868,8 +884,13 @@ class DocSpec:
         self.raws = []       # raw-HTML strings the document contains (declared markup, same in baseline and adversarial)
         self.use_raw = rng.random() < 0.35
         self.leaves = []     # (position name, verbatim?)
+        self.pkgs = []       # preamble lines the chosen positions need
         self.rng = rng
         self.build()
+
+    def need(self, line):
+        if line not in self.pkgs:
+            self.pkgs.append(line)
 
     def leaf(self, pos, verbatim=False):
         k = len(self.leaves)
@@ -894,6 +915,78 @@ class DocSpec:
             else:
                 self.add('\\verb|'); self.leaf('verb', True); self.add('| ')
 
+    # ---- text-bearing positions that packages (and less common base macros) bring with their own templates
+
+    def lst_opts(self, caption=False):
+        rng = self.rng
+        lang = rng.choice(LST_LANGS)
+        opts = []
+        if lang:
+            opts.append('language=%s' % lang)
+        if rng.random() < 0.15:
+            opts.append('numbers=left')
+        return opts
+
+    def listing(self):
+        rng = self.rng
+        self.need('\\usepackage{listings}')
+        if rng.random() < 0.25:
+            self.add('\\lstset{language=%s}\n' % rng.choice([l for l in LST_LANGS if l]))
+        opts = self.lst_opts()
+        self.add('\n\\begin{lstlisting}')
+        if opts or rng.random() < 0.2:
+            self.add('[%s' % ','.join(opts))
+            if rng.random() < 0.4:
+                self.add('%scaption={' % (',' if opts else '')); self.leaf('lstcaption'); self.add('}')
+            self.add(']')
+        self.add('\n')
+        for i in range(rng.randint(1, 2)):
+            self.leaf('lstlisting', True); self.add('\n')
+        self.add('\\end{lstlisting}\n')
+
+    def pkg_inline(self):
+        rng = self.rng
+        r = rng.randrange(8)
+        if r == 0:
+            self.need('\\usepackage{listings}')
+            opts = self.lst_opts()
+            self.add('\\lstinline%s|' % ('[%s]' % ','.join(opts) if opts else '')); self.leaf('lstinline', True); self.add('| ')
+        elif r == 1:
+            self.add('\\texttt{'); self.leaf('texttt'); self.add('} ')
+        elif r == 2:
+            self.add('\\underline{'); self.leaf('underline'); self.add('} ')
+        elif r == 3:
+            self.need('\\usepackage{color}')
+            self.add('\\textcolor{red}{'); self.leaf('textcolor'); self.add('} ')
+        elif r == 4:
+            self.add(rng.choice(['\\fbox{', '\\mbox{', '\\framebox{'])); self.leaf('box'); self.add('} ')
+        elif r == 5:
+            self.add('\\textsc{'); self.leaf('textsc'); self.add('} \\textit{'); self.leaf('textit'); self.add('} ')
+        elif r == 6:
+            self.add('\\marginpar{'); self.leaf('marginpar'); self.add('} ')
+        else:
+            self.add('{\\small '); self.leaf('small'); self.add('} {\\bfseries '); self.leaf('bfseries'); self.add('} ')
+
+    def pkg_block(self):
+        rng = self.rng
+        r = rng.randrange(6)
+        if r <= 1:
+            self.listing()
+        elif r == 2:
+            self.need('\\usepackage{alltt}')
+            self.add('\n\\begin{alltt}\n'); self.leaf('alltt'); self.add('\n\\end{alltt}\n')
+        elif r == 3:
+            env = rng.choice(['center', 'quotation', 'verse', 'flushleft', 'flushright'])
+            self.add('\\begin{%s}' % env); self.leaf(env); self.add('\\end{%s}\n' % env)
+        elif r == 4:
+            self.need('\\newtheorem{thm}{Theorem}')
+            self.add('\\begin{thm}')
+            if rng.random() < 0.6:
+                self.add('['); self.leaf('thmtitle'); self.add(']')
+            self.add(' '); self.leaf('thmbody'); self.add('\\end{thm}\n')
+        else:
+            self.add('\n\n'); self.pkg_inline(); self.pkg_inline(); self.add('\n\n')
+
     def raw(self):
         w = self.rng.choice(RAWPOOL)
         self.raws.append(w)
@@ -903,6 +996,9 @@ class DocSpec:
         rng = self.rng
         if self.use_raw and rng.random() < 0.4:
             self.raw()
+        if rng.random() < 0.3:
+            self.pkg_block()
+            return
         r = rng.randrange(10)
         if r == 0:
             self.add('\n\n'); self.inline(); self.add('\n\n')
@@ -944,6 +1040,7 @@ class DocSpec:
         self.add('\\documentclass{%s}\n' % self.cls)
         if self.use_raw:
             self.add('\\usepackage{html}\n')
+        self.add(('preamble',))
         if rng.random() < 0.8:
             self.add('\\title{'); self.leaf('doctitle'); self.add('}')
             if rng.random() < 0.5:
@@ -969,12 +1066,18 @@ class DocSpec:
             if rng.random() < 0.4:
                 self.add('\\subsection{'); self.leaf('title'); self.add('}\n')
                 self.block()
+        if rng.random() < 0.2:
+            self.add('\\begin{thebibliography}{9}\\bibitem{ka} '); self.leaf('bibitem')
+            self.add('\n\\bibitem['); self.leaf('biblabel'); self.add(']{kb} '); self.leaf('bibitem')
+            self.add('\n\\end{thebibliography}\n')
         self.add('\\end{document}\n')
 
     def source(self, payloads):
         out = []
         for p in self.parts:
-            if isinstance(p, tuple):
+            if p == ('preamble',):
+                out.append(''.join(l + '\n' for l in self.pkgs))
+            elif isinstance(p, tuple):
                 k = p[1]
                 pl = payloads.get(k) if payloads else None
                 if pl and len(pl) > 2 and pl[2]:
@@ -1010,6 +1113,13 @@ def render_doc(src, cfg):
     tex.input(src)
     d = tempfile.mkdtemp(prefix='c12-')
     cwd = os.getcwd()
+    restore = []
+    if 'no-pygments' in (cfg.get('env') or []):
+        # an installation without the optional Pygments dependency: what `except: pygments = None` at the top of
+        # Packages/listings.py leaves behind
+        import plasTeX.Packages.listings as _lst
+        restore.append((_lst, 'pygments', _lst.pygments))
+        _lst.pygments = None
     try:
         os.chdir(d)
         doc = tex.parse()
@@ -1023,6 +1133,8 @@ def render_doc(src, cfg):
                 out[f] = open(os.path.join(d, f), 'rb').read()
         return out
     finally:
+        for mod_, attr_, val_ in restore:
+            setattr(mod_, attr_, val_)
         os.chdir(cwd)
         shutil.rmtree(d, ignore_errors=True)
         try:   # a failed render leaves the mix-in installed
@@ -1075,6 +1187,31 @@ class _Renum:
         return re.sub(r'\ba\d{10}\b', lambda m: self.map.setdefault(m.group(0), 'id%d' % len(self.map)), text)
 
 
+_TOKEN_CLASS = re.compile(r'^(?:[a-z][a-z0-9]{0,3}|linenos)$')
+
+
+def _collapse_highlight(ev):
+    """A syntax highlighter (Pygments, package listings) cuts a listing into `<span class="k">` tokens whose
+    boundaries depend on the text.  Spans that carry nothing but a highlighter token class (or nothing at all) are
+    transparent for the comparison; the text inside them is compared as part of the surrounding text."""
+    out, stack = [], []
+    for e in ev:
+        if e[0] == 'start' and e[1] == 'span':
+            a = dict(e[2])
+            tok = (not a) or (set(a) == {'class'} and _TOKEN_CLASS.match(a['class'] or ''))
+            stack.append(bool(tok))
+            if tok:
+                continue
+        elif e[0] == 'end' and e[1] == 'span' and stack:
+            if stack.pop():
+                continue
+        if e[0] == 'text' and out and out[-1][0] == 'text':
+            out[-1] = ('text', out[-1][1] + e[1])
+        else:
+            out.append(e)
+    return out
+
+
 def doc12_check(base_src, adv_src, texts, cfg):
     """None when the property holds, else a description.  texts: {leaf k: displayed text, or {'bare': text} when the
     payload stands alone (no marker around it) in the adversarial document}"""
@@ -1094,8 +1231,8 @@ def doc12_check(base_src, adv_src, texts, cfg):
     rb, ra, ro = _Renum(), _Renum(), _Renum()
     for f in sorted(base):
         try:
-            eb = html_events(rb(base[f].decode(cfg['enc'])))
-            ea = html_events(ra(adv[f].decode(cfg['enc'])))
+            eb = _collapse_highlight(html_events(rb(base[f].decode(cfg['enc']))))
+            ea = _collapse_highlight(html_events(ra(adv[f].decode(cfg['enc']))))
         except UnicodeDecodeError as e:
             return 'output file %s is not valid %s: %s' % (f, cfg['enc'], e)
         want = _subst_events(eb, texts)
@@ -1107,7 +1244,7 @@ def doc12_check(base_src, adv_src, texts, cfg):
         hi = [b for b in raw if b > 127]
         if hi and cfg['enc'] in ('utf-8', 'latin-1', 'ascii'):
             return 'file %s with escape-high-chars is not pure ASCII (byte %d)' % (f, hi[0])
-        eo = _subst_events(html_events(ro(raw.decode(cfg['enc']))), {})
+        eo = _subst_events(_collapse_highlight(html_events(ro(raw.decode(cfg['enc'])))), {})
         d = _first_diff(ea, eo)
         if d:
             return 'file %s: escape-high-chars changed the parse at event %d: %r vs %r' % (f, d[0], d[1], d[2])
@@ -1124,7 +1261,7 @@ def gen_cfg(rng):
     if renderer == 'HTML5' and theme is None and enc == 'latin-1':
         enc = 'utf-8'     # the default HTML5 layout itself contains U+25B6/U+25BC: not writable in Latin-1
     return {'renderer': renderer, 'theme': theme, 'split': rng.choice([-10, 0, 1, 2, 2, 3]), 'esc': 0, 'enc': enc,
-            'opts': gen_opts(rng)}
+            'opts': gen_opts(rng), 'env': (['no-pygments'] if rng.random() < 0.3 else [])}
 
 
 # Options of Config.py / HTML5/Config.py that the templates consult: each can make further text-bearing
@@ -1269,19 +1406,41 @@ def extra_checks(ctx):
     for renderer in ('HTML5', 'XHTML'):
         for split in (3, 1):
             todo.append((spec1, pl1, {'renderer': renderer, 'theme': None, 'split': split, 'esc': 0, 'enc': 'utf-8', 'opts': all_on}))
+    # package-provided verbatim material: listings in languages the highlighter knows / does not know / none,
+    # with and without the optional highlighter installed (D15 witnesses, fixed in the repo: must hold)
+    spec2 = DocSpec(random.Random(3))
+    spec2.raws, spec2.pkgs = [], []
+    spec2.parts = ['\\documentclass{article}\\usepackage{listings}\\begin{document}\\section{S}\nA \\lstinline|', ('leaf', 0),
+                   '| B \\lstinline[language=Oz]|', ('leaf', 1), '| C\n\\begin{lstlisting}[language=Algol,caption={', ('leaf', 2), '}]\n', ('leaf', 3),
+                   '\n\\end{lstlisting}\n\\begin{lstlisting}\n', ('leaf', 4), '\n\\end{lstlisting}\n\\lstset{language=Simula}\n\\begin{lstlisting}\n',
+                   ('leaf', 5), '\n\\end{lstlisting}\n\\begin{lstlisting}[language=Python,numbers=left]\n', ('leaf', 6), '\n\\end{lstlisting}\n\\end{document}\n']
+    spec2.leaves = [('lstinline', True), ('lstinline', True), ('lstcaption', False), ('lstlisting', True), ('lstlisting', True),
+                    ('lstlisting', True), ('lstlisting', True)]
+    pl2 = {0: ('x<y&<kbd id="k">z</kbd>', 'x<y&<kbd id="k">z</kbd>'), 1: ('a<b>&amp;', 'a<b>&amp;'), 2: ('Cap <i> \\&lt;', 'Cap <i> &lt;'),
+           3: ('if a<b then x:=1 & y; <marquee onstart="p()">&lt;m&gt;</marquee> fi', 'if a<b then x:=1 & y; <marquee onstart="p()">&lt;m&gt;</marquee> fi'),
+           4: ('no language: a<b & <samp>&#38;</samp>', 'no language: a<b & <samp>&#38;</samp>'),
+           5: ('proc <blink>&amp;</blink> end', 'proc <blink>&amp;</blink> end'), 6: ('x = "<b>" & 1 # </pre>', 'x = "<b>" & 1 # </pre>')}
+    for renderer in ('HTML5', 'XHTML'):
+        for env in ([], ['no-pygments']):
+            todo.append((spec2, pl2, {'renderer': renderer, 'theme': None, 'split': -10, 'esc': 0, 'enc': 'utf-8', 'opts': [], 'env': env}))
     for _ in range(ndocs):
         spec = DocSpec(rng)
         cfg = gen_cfg(rng)
+        if cfg['enc'] == 'utf-16' and '\\usepackage{listings}' in spec.pkgs:
+            cfg['enc'] = 'utf-8'     # listings writes styles/pygments.css in UTF-8 and the clean-up re-reads it in the output encoding
         latin1 = cfg['enc'] == 'latin-1'
         payloads = {}
         for k, (pos, verb) in enumerate(spec.leaves):
             if rng.random() < 0.75:
-                payloads[k] = gen_payload(rng, verb, latin1, pos in ('term', 'toctitle'))
+                # `~` is an ordinary character inside alltt (a no-break space elsewhere)
+                payloads[k] = gen_payload(rng, verb, latin1, pos in OPTARG_POSITIONS or pos in DICTARG_POSITIONS, pos == 'alltt')
+                while pos in DICTARG_POSITIONS and any(c in payloads[k][1] for c in ',={}'):
+                    payloads[k] = gen_payload(rng, verb, latin1, True)
                 if pos in BARE_POSITIONS and not verb and rng.random() < (0.5 if spec.raws else 0.15):
                     # the payload alone is the whole text node; preferably a string that the document also
                     # contains as declared raw HTML (same characters, once markup and once text)
                     w0 = rng.choice(spec.raws) if spec.raws and rng.random() < 0.7 else rng.choice(BARE_WHOLE)
-                    if not (pos in ('term', 'toctitle') and ('[' in w0 or ']' in w0)):
+                    if not (pos in OPTARG_POSITIONS and ('[' in w0 or ']' in w0)):
                         payloads[k] = (_spell(w0, False), w0, True)
         todo.append((spec, payloads, cfg))
     items = [(i, spec.source(None), spec.source(payloads), _texts(payloads), cfg)
